@@ -83,8 +83,13 @@ func (s *Scope) Define(sym *Symbol) {
 func (s *Scope) DefineImported(sym *Symbol, pkg string) {
 	sym.Scope = s
 	if sym.Package != "" {
-		s.PackageSymbols[sym.Package+":"+sym.Name] = sym
-		s.bareNameIndex[sym.Name] = sym
+		// A definition made in this file keeps the package-qualified name:
+		// the import of that same package's exports must not replace it.
+		key := sym.Package + ":" + sym.Name
+		if cur := s.PackageSymbols[key]; cur == nil || cur.External {
+			s.PackageSymbols[key] = sym
+			s.bareNameIndex[sym.Name] = sym
+		}
 	}
 	if pkg == "" {
 		s.Symbols[sym.Name] = sym
